@@ -159,6 +159,28 @@ func (db *Database) DeleteRange(start, end []byte) error {
 }
 
 func (db *Database) Compact(start []byte, limit []byte) error {
+	if limit == nil {
+		// The database.Database spec treats a nil [limit] as a key after all keys, but
+		// pebble treats a nil [limit] as a key before all keys in Compact. Use the greatest
+		// key in the database as the [limit] to get the desired behavior (merkledb compacts
+		// the whole database with Compact(nil, nil) when it rebuilds after an unclean shutdown).
+		it, err := db.db.NewIter(&pebble.IterOptions{})
+		if err != nil {
+			return updateError(err)
+		}
+		if !it.Last() {
+			// The database is empty.
+			return it.Close()
+		}
+		limit = slices.Clone(it.Key())
+		if err := it.Close(); err != nil {
+			return err
+		}
+	}
+	if pebble.DefaultComparer.Compare(start, limit) >= 0 {
+		// pebble requires [start] < [limit]
+		return nil
+	}
 	return updateError(db.db.Compact(start, limit, false))
 }
 
